@@ -323,7 +323,8 @@ def r7(ctx):
         P.body(r)
     sites, fns, probs = C07.discharge_subset(ctx, roots, "C06")
     ctx.floor("functions reachable from the parser and the builder", len(fns), 15)
-    ctx.floor("obligation sites below parse_fen / build", len(sites), 25)
+    checked = P.crates["chess_bitboard"]["cfg"].get("overflow_checks", True)
+    ctx.floor("obligation sites below parse_fen / build", len(sites), 25 if checked else 10)
     ctx.bulk("parser/builder obligation sites", len(sites), [])
     for pr in probs:
         ctx.ob("totality:" + pr.split(":")[0][:80], False, "the parser/builder can reach an unchecked operation that is no longer discharged: " + pr[:300])
